@@ -9,11 +9,13 @@ import sys
 sys.path.insert(0, "/verif/harness")
 props = [json.loads(l) for l in open("/verif/properties.jsonl")]
 checks, na = [], []
+# only properties the lead has reviewed (check passes on the unchanged tree, files committed) are claimed
+reviewed = set(open("/verif/tools/claimed.txt").read().split())
 for p in props:
     pid = p["id"]
     path = f"/verif/harness/{pid.lower()}.py"
     mod = None
-    if os.path.exists(path):
+    if pid in reviewed and os.path.exists(path):
         mod = importlib.import_module(pid.lower())
     if mod is None or not getattr(mod, "CLAIMED", True) or not hasattr(mod, "MANIFEST"):
         reason = getattr(mod, "NOT_CLAIMED_REASON", None) if mod else None
